@@ -47,8 +47,12 @@ def lifecycle_case(ck, b, name, d, fd, ops, coq_in):
                 ck.violation("wrong-transition:disable", "%s.disable from %s went to %s" % (name, sb, sa), dict(ctx, at=i))
             if should and op[1] == "close" and sa != "CLOSED":
                 ck.violation("wrong-transition:close", "%s.close from %s went to %s" % (name, sb, sa), dict(ctx, at=i))
+            if op[1] == "execute" and sb == "INSTALLING" and sa != "INSTALLING":
+                ck.violation("installing-application-opened-by-execute", "%s.execute while INSTALLING moved it to %s: an application works only once its installation has finished" % (name, sa), dict(ctx, at=i))
             if op[1] in ("fix", "scan", "compromise") and sa != sb:
                 ck.violation("health-request-changed-operating-state", "%s.%s changed operating state %s -> %s" % (name, op[1], sb, sa), dict(ctx, at=i))
+        if op[0] in ("NodeOn", "NodeOff") and sb == "INSTALLING" and sa == "RUNNING":
+            ck.violation("installing-application-opened-by-power-cycle", "%s went INSTALLING -> RUNNING on %s" % (name, op[0]), dict(ctx, at=i))
         if op[0] in ("Tick", "NodeScan") and sa != sb:
             if not (is_svc and sb == "RESTARTING" and sa == "RUNNING") and not (not is_svc and sb == "INSTALLING" and sa == "RUNNING"):
                 ck.violation("tick-changed-operating-state", "%s moved %s -> %s on a tick" % (name, sb, sa), dict(ctx, at=i))
@@ -174,7 +178,7 @@ def run(ck):
     for name in items:
         for k in range(per):
             bb = SwBench()
-            lifecycle_case(ck, bb, name, rng.choice([0, 1, 2, 3]), rng.choice([0, 1, 2, 3]), gen_ops(rng, bb.is_service(name), rng.randint(8, 26)), coq_in)
+            lifecycle_case(ck, bb, name, rng.choice([0, 1, 2, 3]), rng.choice([0, 1, 2, 3]), gen_ops(rng, bb.is_service(name), rng.randint(8, 26), name), coq_in)
     for d in (0, 1, 2, 3):
         bb = SwBench()
         for name in bb.services:
